@@ -1,12 +1,10 @@
-// Family c26: block/transaction level state transition of go-ethereum (the loop of
-// cmd/evm/internal/t8ntool Prestate.Apply, replicated in-process over the exported
-// core.TransactionToMessage / core.ApplyTransactionWithEVM / core.ProcessBeaconBlockRoot /
-// core.ProcessParentBlockHash / core.PostExecution / StateDB.Commit) versus the execution
-// specification coq/EVM/{Tx,Block}.v on top of the EVM core of C27.
+// Family c26: block/transaction level state transition of go-ethereum, executed through the code of
+// `evm t8n` (cmd/evm/internal/t8ntool Prestate.Apply, reached in-process through the hook package
+// /repo/cmd/evm/verifc26), versus the execution specification coq/EVM/{Tx,Block}.v on top of the EVM
+// core of C27.
 package main
 
 import (
-	"context"
 	"crypto/ecdsa"
 	"errors"
 	"fmt"
@@ -16,18 +14,16 @@ import (
 	"time"
 
 	. "gethverif/harness/hxlib"
+	"github.com/ethereum/go-ethereum/cmd/evm/verifc26"
 	"github.com/ethereum/go-ethereum/common"
 	"github.com/ethereum/go-ethereum/consensus/misc/eip4844"
 	"github.com/ethereum/go-ethereum/core"
-	"github.com/ethereum/go-ethereum/core/rawdb"
 	"github.com/ethereum/go-ethereum/core/state"
 	"github.com/ethereum/go-ethereum/core/tracing"
 	"github.com/ethereum/go-ethereum/core/types"
-	"github.com/ethereum/go-ethereum/core/types/bal"
 	"github.com/ethereum/go-ethereum/core/vm"
 	"github.com/ethereum/go-ethereum/crypto"
 	"github.com/ethereum/go-ethereum/params"
-	"github.com/ethereum/go-ethereum/triedb"
 	"github.com/holiman/uint256"
 )
 
@@ -75,6 +71,14 @@ type alEntry struct {
 	keys []*big.Int
 }
 
+type authc struct {
+	chain     *big.Int
+	addr      *big.Int
+	nonce     uint64
+	key       uint64   // private key that signs the tuple
+	authority *big.Int // nil = the signature is made invalid
+}
+
 type txc struct {
 	typ        int
 	key        uint64 // private key of the sender (small integer)
@@ -89,6 +93,7 @@ type txc struct {
 	al         []alEntry
 	blobfeecap *big.Int
 	blobs      []*big.Int
+	auths      []authc
 }
 
 type wdl struct {
@@ -149,8 +154,8 @@ func parseCase(c Sx) bcase {
 	}
 	for _, x := range AsList(l[6]) {
 		xl := AsList(x)
-		if len(xl) != 13 {
-			panic("hxlib: tx must have 13 fields")
+		if len(xl) != 14 {
+			panic("hxlib: tx must have 14 fields")
 		}
 		tx := txc{typ: AsInt(xl[0]), key: AsU64(xl[1]), from: bi(xl[2]), nonce: AsU64(xl[3]), gas: AsU64(xl[4]),
 			feecap: bi(xl[5]), tipcap: bi(xl[6]), value: bi(xl[8]), data: AsBytes(xl[9]), blobfeecap: bi(xl[11])}
@@ -170,8 +175,30 @@ func parseCase(c Sx) bcase {
 		for _, h := range AsList(xl[12]) {
 			tx.blobs = append(tx.blobs, bi(h))
 		}
-		if tx.typ < 0 || tx.typ > 3 {
+		for _, a := range AsList(xl[13]) {
+			al := AsList(a)
+			au := authc{chain: bi(al[0]), addr: bi(al[1]), nonce: AsU64(al[2]), key: AsU64(al[3])}
+			if tl := AsList(al[4]); len(tl) == 1 {
+				au.authority = bi(tl[0])
+				if keyAddr(au.key).Cmp(au.authority) != 0 {
+					panic("hxlib: authority is not the address of the tuple's key")
+				}
+			} else if len(tl) != 0 {
+				panic("hxlib: authority shape")
+			}
+			if au.chain.BitLen() > 256 || au.addr.BitLen() > 160 {
+				panic("hxlib: authorisation field out of range")
+			}
+			tx.auths = append(tx.auths, au)
+		}
+		if tx.typ < 0 || tx.typ > 4 {
 			panic("hxlib: tx type out of range")
+		}
+		if tx.typ != 4 && len(tx.auths) > 0 {
+			panic("hxlib: authorisations on a transaction that is not of type 4")
+		}
+		if tx.typ == 4 && tx.to == nil {
+			panic("hxlib: set-code transaction without destination")
 		}
 		if tx.typ != 3 && len(tx.blobs) > 0 {
 			panic("hxlib: blob hashes on a non-blob transaction")
@@ -235,13 +262,21 @@ func (t bcase) sx() Sx {
 		for _, h := range x.blobs {
 			bh = append(bh, Big(h))
 		}
+		aus := SL{}
+		for _, a := range x.auths {
+			auth := SL{}
+			if a.authority != nil {
+				auth = SL{Big(a.authority)}
+			}
+			aus = append(aus, L(Big(a.chain), Big(a.addr), U(a.nonce), U(a.key), auth))
+		}
 		txs = append(txs, L(I(int64(x.typ)), U(x.key), Big(x.from), U(x.nonce), U(x.gas), Big(x.feecap), Big(x.tipcap),
-			to, Big(x.value), B(x.data), al, Big(x.blobfeecap), bh))
+			to, Big(x.value), B(x.data), al, Big(x.blobfeecap), bh, aus))
 	}
 	return L(I(int64(t.debug)), I(int64(t.fork)), ev, beacon, wds, pre, txs)
 }
 
-func addrOf(b *big.Int) common.Address { return common.BigToAddress(b) }
+func addrOf(b *big.Int) common.Address  { return common.BigToAddress(b) }
 func addrBig(a common.Address) *big.Int { return new(big.Int).SetBytes(a.Bytes()) }
 
 // ---------------------------------------------------------------------------
@@ -317,87 +352,13 @@ func vmErrClass(err error) int64 {
 }
 
 const (
-	teBlobGasLimit = 19
-	teOther        = 30
+	teBlobGasLimit     = 19
+	teTypeNotSupported = 21
+	teOther            = 30
 )
-
-func txErrClass(err error) int64 {
-	switch {
-	case errors.Is(err, core.ErrNonceTooHigh):
-		return 1
-	case errors.Is(err, core.ErrNonceTooLow):
-		return 2
-	case errors.Is(err, core.ErrNonceMax):
-		return 3
-	case errors.Is(err, core.ErrGasLimitTooHigh):
-		return 4
-	case errors.Is(err, core.ErrSenderNoEOA):
-		return 5
-	case errors.Is(err, core.ErrTipAboveFeeCap):
-		return 6
-	case errors.Is(err, core.ErrFeeCapTooLow):
-		return 7
-	case errors.Is(err, core.ErrBlobTxCreate):
-		return 8
-	case errors.Is(err, core.ErrMissingBlobHashes):
-		return 9
-	case errors.Is(err, core.ErrTooManyBlobs):
-		return 10
-	case strings.Contains(err.Error(), "invalid hash version"):
-		return 11
-	case errors.Is(err, core.ErrBlobFeeCapTooLow):
-		return 12
-	case errors.Is(err, vm.ErrMaxInitCodeSizeExceeded):
-		return 13
-	case errors.Is(err, core.ErrGasLimitReached):
-		return 14
-	case errors.Is(err, core.ErrInsufficientFundsForTransfer):
-		return 18
-	case errors.Is(err, core.ErrInsufficientFunds):
-		return 15
-	case errors.Is(err, core.ErrIntrinsicGas):
-		return 16
-	case errors.Is(err, core.ErrFloorDataGas):
-		return 17
-	}
-	return teOther
-}
 
 // ---------------------------------------------------------------------------
 // running the implementation
-
-// as cmd/evm/internal/t8ntool MakePreState: hash-based trie database with preimages
-var backing = state.NewDatabase(triedb.NewDatabase(rawdb.NewMemoryDatabase(), &triedb.Config{Preimages: true}), nil)
-
-func buildState(t bcase) *state.StateDB {
-	st, err := state.New(types.EmptyRootHash, backing)
-	if err != nil {
-		panic("hxlib: state.New: " + err.Error())
-	}
-	for _, a := range t.pre {
-		ad := addrOf(a.addr)
-		if a.balance.Sign() == 0 && a.nonce == 0 && len(a.code) == 0 {
-			panic("hxlib: empty account in the pre-state (EIP-161)")
-		}
-		st.SetNonce(ad, a.nonce, tracing.NonceChangeGenesis)
-		st.SetBalance(ad, uint256.MustFromBig(a.balance), tracing.BalanceIncreaseGenesisBalance)
-		if len(a.code) > 0 {
-			st.SetCode(ad, a.code, tracing.CodeChangeUnspecified)
-		}
-		for _, s := range a.slots {
-			st.SetState(ad, common.BigToHash(s[0]), common.BigToHash(s[1]))
-		}
-	}
-	root, err := st.Commit(params.Rules{}, 0)
-	if err != nil {
-		panic("hxlib: commit: " + err.Error())
-	}
-	st2, err := state.New(root, backing)
-	if err != nil {
-		panic("hxlib: reopen: " + err.Error())
-	}
-	return st2
-}
 
 func blockHashOracle(n uint64) common.Hash {
 	return crypto.Keccak256Hash(common.BigToHash(new(big.Int).SetUint64(n)).Bytes())
@@ -426,6 +387,21 @@ func makeTx(t bcase, x txc) *types.Transaction {
 		inner = &types.AccessListTx{ChainID: chainID, Nonce: x.nonce, GasPrice: x.feecap, Gas: x.gas, To: to, Value: x.value, Data: x.data, AccessList: al}
 	case 2:
 		inner = &types.DynamicFeeTx{ChainID: chainID, Nonce: x.nonce, GasTipCap: x.tipcap, GasFeeCap: x.feecap, Gas: x.gas, To: to, Value: x.value, Data: x.data, AccessList: al}
+	case 4:
+		auths := make([]types.SetCodeAuthorization, 0)
+		for _, a := range x.auths {
+			sa, err := types.SignSetCode(keyOf(a.key).priv, types.SetCodeAuthorization{ChainID: *uint256.MustFromBig(a.chain), Address: addrOf(a.addr), Nonce: a.nonce})
+			if err != nil {
+				panic("hxlib: sign authorisation: " + err.Error())
+			}
+			if a.authority == nil {
+				sa.R = uint256.Int{} // r = 0: no authority can be recovered
+			}
+			auths = append(auths, sa)
+		}
+		inner = &types.SetCodeTx{ChainID: uint256.MustFromBig(chainID), Nonce: x.nonce, GasTipCap: uint256.MustFromBig(x.tipcap),
+			GasFeeCap: uint256.MustFromBig(x.feecap), Gas: x.gas, To: *to, Value: uint256.MustFromBig(x.value), Data: x.data,
+			AccessList: al, AuthList: auths}
 	default:
 		hashes := make([]common.Hash, 0)
 		for _, h := range x.blobs {
@@ -466,44 +442,83 @@ type blockOut struct {
 	precompile bool // a precompile other than identity was called
 	maxDepth   int
 	panicked   string
-	sysPanic   string
+	selfBurn   bool     // a SELFDESTRUCT with itself as beneficiary was executed (EIP-6780 may burn its balance)
+	blobGasOf  []uint64 // blob gas of every included transaction
 }
-
-var sysAddrs = []common.Address{params.BeaconRootsAddress, params.HistoryStorageAddress, params.WithdrawalQueueAddress, params.ConsolidationQueueAddress}
 
 const stepBudget = 3000000
 
 type budgetExceeded struct{}
 
-// runBlock is the loop of t8ntool's Prestate.Apply.  skip[i] = true leaves transaction i out.
+// runBlock runs the block through cmd/evm/internal/t8ntool Prestate.Apply (the code of `evm t8n`),
+// reached in-process through the hook package cmd/evm/verifc26.  skip[i] = true leaves transaction i out
+// (indices of the rejected transactions are reported in terms of the full list).
 func runBlock(t bcase, skip map[int]bool, count bool) (out blockOut) {
 	cfg := configs[t.fork]
-	st := buildState(t)
-	out.st = st
 	number := t.env[2].Uint64()
 	tm := t.env[1].Uint64()
 	if number == 0 {
 		panic("hxlib: block number 0")
 	}
-	rules := cfg.Rules(new(big.Int).SetUint64(number), true, tm)
 	excess := t.env[7].Uint64()
 	blobFee := eip4844.CalcBlobFee(cfg, &types.Header{Time: tm, ExcessBlobGas: &excess})
 	if blobFee.Cmp(t.env[8]) != 0 {
 		panic(fmt.Sprintf("hxlib: blob base fee of the case (%v) is not CalcBlobFee(excess blob gas) = %v", t.env[8], blobFee))
 	}
-	rnd := common.BigToHash(t.env[3])
-	vmctx := vm.BlockContext{
-		CanTransfer: core.CanTransfer, Transfer: core.Transfer,
-		Coinbase: addrOf(t.env[0]), BlockNumber: new(big.Int).SetUint64(number), Time: tm,
-		Difficulty: new(big.Int), GasLimit: t.env[4].Uint64(), GetHash: blockHashOracle,
-		BaseFee: new(big.Int).Set(t.env[6]), Random: &rnd, BlobBaseFee: blobFee,
-		CostPerStateByte: params.CostPerStateByte,
+	alloc := types.GenesisAlloc{}
+	for _, a := range t.pre {
+		if a.balance.Sign() == 0 && a.nonce == 0 && len(a.code) == 0 {
+			panic("hxlib: empty account in the pre-state (EIP-161)")
+		}
+		ga := types.Account{Balance: a.balance, Nonce: a.nonce, Code: a.code}
+		if len(a.slots) > 0 {
+			ga.Storage = map[common.Hash]common.Hash{}
+			for _, s := range a.slots {
+				ga.Storage[common.BigToHash(s[0])] = common.BigToHash(s[1])
+			}
+		}
+		alloc[addrOf(a.addr)] = ga
 	}
-	var topErr error
+	env := verifc26.Env{
+		Coinbase: addrOf(t.env[0]), Random: new(big.Int).Set(t.env[3]), GasLimit: t.env[4].Uint64(), Number: number,
+		Timestamp: tm, BaseFee: new(big.Int).Set(t.env[6]), ExcessBlobGas: &excess, BlockHashes: map[uint64]common.Hash{},
+	}
+	for n := number - 1; n+256 >= number; n-- {
+		env.BlockHashes[n] = blockHashOracle(n)
+		if n == 0 {
+			break
+		}
+	}
+	if t.beacon != nil {
+		h := common.BytesToHash(t.beacon)
+		env.ParentBeaconBlockRoot = &h
+	}
+	for i, w := range t.wds {
+		env.Withdrawals = append(env.Withdrawals, &types.Withdrawal{Index: uint64(i), Validator: uint64(i), Address: addrOf(w.addr), Amount: w.amount})
+	}
+	var txs []*types.Transaction
+	var index []int // position in t.txs of the i-th transaction handed to the tool
+	for i, x := range t.txs {
+		if skip[i] {
+			continue
+		}
+		txs = append(txs, makeTx(t, x))
+		index = append(index, i)
+	}
+	// the error of the outermost frame of every included transaction, in order (system calls are
+	// told apart by their sender)
+	var topErrs []error
+	inSystem := false
 	hooks := &tracing.Hooks{
 		OnEnter: func(depth int, typ byte, from, to common.Address, input []byte, gas uint64, value *big.Int) {
+			if depth == 0 {
+				inSystem = from == params.SystemAddress
+			}
 			if depth+1 > out.maxDepth {
 				out.maxDepth = depth + 1
+			}
+			if vm.OpCode(typ) == vm.SELFDESTRUCT && from == to {
+				out.selfBurn = true
 			}
 			if vm.OpCode(typ) != vm.SELFDESTRUCT {
 				if p := to.Big(); p.BitLen() <= 9 && p.Sign() > 0 && p.Uint64() != 4 && (p.Uint64() <= 17 || p.Uint64() == 256) {
@@ -512,8 +527,8 @@ func runBlock(t bcase, skip map[int]bool, count bool) (out blockOut) {
 			}
 		},
 		OnExit: func(depth int, output []byte, gasUsed uint64, err error, reverted bool) {
-			if depth == 0 {
-				topErr = err
+			if depth == 0 && !inSystem {
+				topErrs = append(topErrs, err)
 			}
 		},
 	}
@@ -537,88 +552,101 @@ func runBlock(t bcase, skip map[int]bool, count bool) (out blockOut) {
 			out.panicked = fmt.Sprint(e)
 		}
 	}()
-	evm := vm.NewEVM(vmctx, st, cfg, vm.Config{Tracer: hooks})
-	acl := bal.NewConstructionBlockAccessList()
-	if t.beacon != nil {
-		core.ProcessBeaconBlockRoot(common.BytesToHash(t.beacon), evm, acl)
-	}
-	if rules.IsPrague {
-		func() {
-			defer func() {
-				if e := recover(); e != nil {
-					out.sysPanic = fmt.Sprint(e)
-				}
-			}()
-			core.ProcessParentBlockHash(blockHashOracle(number-1), evm, acl)
-		}()
-	}
-	var (
-		signer    = types.MakeSigner(cfg, new(big.Int).SetUint64(number), tm)
-		gaspool   = core.NewGasPool(vmctx.GasLimit)
-		blockHash = common.Hash{0x13, 0x37}
-		receipts  types.Receipts
-	)
-	for i, x := range t.txs {
-		if skip[i] {
-			continue
-		}
-		tx := makeTx(t, x)
-		msg, err := core.TransactionToMessage(tx, signer, vmctx.BaseFee)
-		if err != nil {
-			out.rejected = append(out.rejected, [2]int64{int64(i), teOther})
-			continue
-		}
-		txBlobGas := uint64(0)
-		if tx.Type() == types.BlobTxType {
-			txBlobGas = uint64(params.BlobTxBlobGasPerBlob * len(tx.BlobHashes()))
-			if used := out.blobGas + txBlobGas; used > eip4844.MaxBlobGasPerBlock(cfg, tm) {
-				out.rejected = append(out.rejected, [2]int64{int64(i), teBlobGasLimit})
-				continue
-			}
-		}
-		st.SetTxContext(tx.Hash(), len(receipts), uint32(len(receipts)+1))
-		snapshot := st.Snapshot()
-		gp := gaspool.Snapshot()
-		topErr = nil
-		receipt, _, err := core.ApplyTransactionWithEVM(msg, gaspool, st, vmctx.BlockNumber, blockHash, tm, tx, evm)
-		if err != nil {
-			st.RevertToSnapshot(snapshot)
-			gaspool.Set(gp)
-			out.rejected = append(out.rejected, [2]int64{int64(i), txErrClass(err)})
-			continue
-		}
-		out.blobGas += txBlobGas
-		receipts = append(receipts, receipt)
-		out.receipts = append(out.receipts, rcpt{receipt.Status, vmErrClass(topErr), receipt.GasUsed, receipt.CumulativeGasUsed,
-			receipt.ContractAddress, receipt.Logs, x.gas})
-	}
-	st.IntermediateRoot(rules)
-	for _, w := range t.wds {
-		amount := new(big.Int).Mul(new(big.Int).SetUint64(w.amount), big.NewInt(params.GWei))
-		st.AddBalance(addrOf(w.addr), uint256.MustFromBig(amount), tracing.BalanceIncreaseWithdrawal)
-	}
-	var allLogs []*types.Log
-	for _, r := range receipts {
-		allLogs = append(allLogs, r.Logs...)
-	}
-	requests, _, err := core.PostExecution(context.Background(), cfg, vmctx.BlockNumber, tm, allLogs, evm, uint32(len(receipts)+1))
+	st, res, _, err := verifc26.Apply(env, alloc, vm.Config{Tracer: hooks}, cfg, txs, -1)
 	if err != nil {
-		if strings.Contains(err.Error(), "empty system contract") {
+		switch {
+		case strings.Contains(err.Error(), "empty system contract"):
 			out.blockErr = 1
-		} else if strings.Contains(err.Error(), "system call failed") {
+		case strings.Contains(err.Error(), "system call failed"):
 			out.blockErr = 2
-		} else {
+		default:
 			out.blockErr = 3
+			out.panicked = "t8n Apply: " + err.Error()
 		}
+		return out
 	}
-	out.requests = requests
-	root, err := st.Commit(rules, number)
-	if err != nil {
-		panic("hxlib: commit: " + err.Error())
+	out.st = st
+	out.root = res.StateRoot
+	out.gasUsed = uint64(res.GasUsed)
+	if res.CurrentBlobGasUsed != nil {
+		out.blobGas = uint64(*res.CurrentBlobGasUsed)
 	}
-	out.root = root
-	out.gasUsed = gaspool.Used()
+	out.requests = res.Requests
+	for _, r := range res.Rejected {
+		out.rejected = append(out.rejected, [2]int64{int64(index[r.Index]), txErrStringClass(r.Err)})
+	}
+	// a transaction rejected after its outermost frame ran cannot exist before Amsterdam: the frames
+	// seen are exactly those of the included transactions
+	if len(topErrs) != len(res.Receipts) {
+		panic(fmt.Sprintf("hxlib: %d outermost frames for %d receipts", len(topErrs), len(res.Receipts)))
+	}
+	k := 0
+	rej := map[int]bool{}
+	for _, r := range res.Rejected {
+		rej[r.Index] = true
+	}
+	for i, receipt := range res.Receipts {
+		for rej[k] {
+			k++
+		}
+		out.receipts = append(out.receipts, rcpt{receipt.Status, vmErrClass(topErrs[i]), receipt.GasUsed, receipt.CumulativeGasUsed,
+			receipt.ContractAddress, receipt.Logs, t.txs[index[k]].gas})
+		out.blobGasOf = append(out.blobGasOf, uint64(len(t.txs[index[k]].blobs))*params.BlobTxBlobGasPerBlob)
+		k++
+	}
 	return out
+}
+
+// the transition tool reports a rejection as a string: the class is found from the sentinel errors' texts
+func txErrStringClass(e string) int64 {
+	has := func(err error) bool { return strings.Contains(e, err.Error()) }
+	switch {
+	case has(core.ErrNonceTooHigh):
+		return 1
+	case has(core.ErrNonceTooLow):
+		return 2
+	case has(core.ErrNonceMax):
+		return 3
+	case has(core.ErrGasLimitTooHigh):
+		return 4
+	case has(core.ErrSenderNoEOA):
+		return 5
+	case has(core.ErrTipAboveFeeCap):
+		return 6
+	case has(core.ErrFeeCapTooLow):
+		return 7
+	case has(core.ErrBlobTxCreate):
+		return 8
+	case has(core.ErrMissingBlobHashes):
+		return 9
+	case has(core.ErrTooManyBlobs):
+		return 10
+	case strings.Contains(e, "invalid hash version"):
+		return 11
+	case has(core.ErrBlobFeeCapTooLow):
+		return 12
+	case has(vm.ErrMaxInitCodeSizeExceeded):
+		return 13
+	case has(core.ErrGasLimitReached):
+		return 14
+	case has(core.ErrInsufficientFundsForTransfer):
+		return 18
+	case has(core.ErrInsufficientFunds):
+		return 15
+	case has(core.ErrIntrinsicGas):
+		return 16
+	case has(core.ErrFloorDataGas):
+		return 17
+	case strings.Contains(e, "would exceed maximum allowance"):
+		return teBlobGasLimit
+	case has(core.ErrEmptyAuthList):
+		return 20
+	case has(types.ErrTxTypeNotSupported):
+		return teTypeNotSupported
+	case has(core.ErrSetCodeTxCreate):
+		return 22
+	}
+	return teOther
 }
 
 // ---------------------------------------------------------------------------
@@ -653,16 +681,16 @@ func observe(t bcase, o blockOut) Sx {
 	if t.debug == 1 {
 		dump = dumpState(o)
 	}
+	if o.blockErr != 0 {
+		// the transition tool gives no result for an invalid block
+		return L(I(o.blockErr), SL{}, SL{}, SL{}, U(0), U(0), SL{}, SL{})
+	}
 	return L(I(o.blockErr), B(o.root.Bytes()), rs, rej, U(o.gasUsed), U(o.blobGas), reqs, dump)
 }
 
 // full account dump of the committed post-state (debug cases only)
 func dumpState(o blockOut) SL {
-	st, err := state.New(o.root, backing)
-	if err != nil {
-		panic("hxlib: reopen post-state: " + err.Error())
-	}
-	d := st.RawDump(&state.DumpConfig{})
+	d := o.st.RawDump(&state.DumpConfig{})
 	type ent struct {
 		a *big.Int
 		s Sx
@@ -745,6 +773,31 @@ func oracle(t bcase, o blockOut) []string {
 	if o.blobGas > eip4844.MaxBlobGasPerBlock(configs[t.fork], t.env[1].Uint64()) {
 		fails = append(fails, fmt.Sprintf("blob gas used %d above the block maximum", o.blobGas))
 	}
+	// ether is neither created nor destroyed except as the EIPs say (EIP-1559: the base fee is burnt;
+	// EIP-4844: the blob fee is burnt; EIP-4895: withdrawals are minted): total after = total before
+	// + withdrawals - sum(gas used * base fee) - sum(blob gas * blob base fee).  Skipped when a contract
+	// self-destructed to itself (EIP-6780 burns its balance if it was created in the same transaction).
+	if o.blockErr == 0 && o.st != nil && !o.selfBurn {
+		total := new(big.Int)
+		for _, a := range t.pre {
+			total.Add(total, a.balance)
+		}
+		for _, w := range t.wds {
+			total.Add(total, new(big.Int).Mul(new(big.Int).SetUint64(w.amount), big.NewInt(params.GWei)))
+		}
+		for i, r := range o.receipts {
+			total.Sub(total, new(big.Int).Mul(new(big.Int).SetUint64(r.gasUsed), t.env[6]))
+			total.Sub(total, new(big.Int).Mul(new(big.Int).SetUint64(o.blobGasOf[i]), t.env[8]))
+		}
+		post := new(big.Int)
+		for _, acc := range o.st.RawDump(&state.DumpConfig{SkipCode: true, SkipStorage: true}).Accounts {
+			b, _ := new(big.Int).SetString(acc.Balance, 10)
+			post.Add(post, b)
+		}
+		if post.Cmp(total) != 0 {
+			fails = append(fails, fmt.Sprintf("ether not conserved: total balance %v, expected %v (before + withdrawals - burnt base and blob fees)", post, total))
+		}
+	}
 	// rejected transactions leave no trace: the block without them gives the same root, receipts
 	// and requests and rejects nothing; with no rejection this is the determinism of re-execution
 	skip := map[int]bool{}
@@ -786,9 +839,6 @@ func run(c Sx) Result {
 		res.Obs = observe(t, o)
 	}
 	fails := oracle(t, o)
-	if o.sysPanic != "" {
-		fails = append(fails, "ProcessParentBlockHash panicked: "+o.sysPanic)
-	}
 	if len(fails) > 0 {
 		if len(fails) > 3 {
 			fails = fails[:3]
@@ -830,7 +880,25 @@ func run(c Sx) Result {
 	if o.precompile {
 		res.Tags = append(res.Tags, "unmodelled-precompile")
 	}
-	res.NonTrivial = len(o.receipts) >= 1 && o.steps >= 3
+	if o.st != nil {
+		for k := uint64(1); k <= 6; k++ {
+			if _, ok := types.ParseDelegation(o.st.GetCode(addrOf(keyAddr(k)))); ok {
+				res.Tags = append(res.Tags, "delegated-eoa")
+				break
+			}
+		}
+	}
+	for _, x := range t.txs {
+		for _, a := range x.auths {
+			if a.authority == nil {
+				res.Tags = append(res.Tags, "auth-badsig")
+			}
+			if a.addr.Sign() == 0 {
+				res.Tags = append(res.Tags, "auth-clear")
+			}
+		}
+	}
+	res.NonTrivial = len(o.receipts) >= 1
 	return res
 }
 
@@ -839,11 +907,12 @@ func main() {
 		ID: "C26",
 		Rule: "pre-states of 4-9 accounts (2-3 externally owned senders with known keys, coinbase, 2-4 contracts with code from the C27 program grammar, " +
 			"the EIP-4788 / 2935 / 7002 / 7251 system contracts with their deployed code or absent/failing variants) and blocks of 1-6 signed transactions " +
-			"(legacy, EIP-2930, EIP-1559, EIP-4844; transfers, contract calls, creations, reverting and out-of-gas executions; invalid ones: nonce too high/low, " +
+			"(legacy, EIP-2930, EIP-1559, EIP-4844, EIP-7702; transfers, contract calls, creations, reverting and out-of-gas executions; invalid ones: nonce too high/low, " +
 			"insufficient funds, gas below intrinsic / below the EIP-7623 floor, fee cap below base fee, tip above fee cap, sender with code, oversized initcode, " +
 			"gas above the EIP-7825 cap, block gas limit reached, blob hash version / count / fee cap / block blob gas limit), withdrawals, optional beacon root, " +
-			"under Cancun / Prague / Osaka. EIP-7702 set-code transactions and calls to precompiles other than identity are not generated (cases reaching one are dropped). " +
-			"Non-trivial: at least one transaction was included and at least 3 EVM instructions were executed; distinct = distinct case line.",
+			"EIP-7702 authorisation lists (valid, wrong chain id / nonce, invalid signature, authority with code, clearing, self-sponsored, repeated authority) and pre-existing delegations, " +
+			"under Cancun / Prague / Osaka. Calls to precompiles other than identity are not generated (cases reaching one are dropped). " +
+			"Non-trivial: at least one transaction was included; distinct = distinct case line.",
 		Gen:         gen,
 		CaseTimeout: 60 * time.Second,
 		Run:         run,
